@@ -93,7 +93,7 @@ fn onehots(lens: &[usize]) -> Vec<Msg> {
 fn blake_msgs<H: HK>(tier: &str) -> Vec<Msg> {
     let b = H::BLOCK;
     let t = tier == "thorough";
-    let mut v = dense(if t { 9 * b + 3 } else { 5 * b + 3 }, &[0, 1, 2]);
+    let mut v = dense(if t { 33 * b + 3 } else { 9 * b + 3 }, &[0, 1, 2]);
     v.extend(onehots(&[b - 9, b - 8, b, 2 * b - 9]));
     let top = if t { 20 } else { 16 };
     for k in 9..=top {
@@ -105,7 +105,7 @@ fn blake_msgs<H: HK>(tier: &str) -> Vec<Msg> {
 }
 fn jh_msgs<H: HK>(tier: &str) -> Vec<Msg> {
     let t = tier == "thorough";
-    let mut v = dense(if t { 8 * 64 + 2 } else { 4 * 64 + 2 }, &[0, 1, 2]);
+    let mut v = dense(if t { 32 * 64 + 2 } else { 8 * 64 + 2 }, &[0, 1, 2]);
     v.extend(onehots(&[64 - 1, 64]));
     for n in [4288 + 64, 65535, 65536, 70001] {
         v.push(Msg::Pat(1, n));
@@ -121,7 +121,7 @@ fn jh_msgs<H: HK>(tier: &str) -> Vec<Msg> {
 fn groestl_msgs<H: HK>(tier: &str) -> Vec<Msg> {
     let b = H::BLOCK;
     let t = tier == "thorough";
-    let mut v = dense(if t { 8 * b + 9 } else { 4 * b + 9 }, &[0, 1, 2]);
+    let mut v = dense(if t { 17 * b + 9 } else { 8 * b + 9 }, &[0, 1, 2]);
     v.extend(onehots(&[b - 9, b - 8, b]));
     // block count crosses 255/256 (counter includes padding blocks)
     let around = 255 * b;
@@ -141,7 +141,7 @@ fn groestl_msgs<H: HK>(tier: &str) -> Vec<Msg> {
 fn skein_msgs<H: HK>(tier: &str) -> Vec<Msg> {
     let b = H::BLOCK;
     let t = tier == "thorough";
-    dense(if t { 5 * b + 2 } else { 3 * b + 2 }, &[1])
+    dense(if t { 9 * b + 2 } else { 4 * b + 2 }, &[1])
 }
 
 fn run_one<H: HK>(rep: &mut Report, check: &str, tier: &str) {
@@ -161,7 +161,7 @@ fn run_one<H: HK>(rep: &mut Report, check: &str, tier: &str) {
 
 pub fn run_c04(tier: &str, config: &str) -> Report {
     let mut rep = Report::new("C04", tier, config);
-    rep.rule = "4 BLAKE variants x {every length 0..=5B+3 (thorough 9B+3) of zeros / counting bytes / 0xff} + every one-hot message of lengths B-9, B-8, B, 2B-9 + lengths 2^k-1,2^k,2^k+1 for k=9..16 (20); digest compared with vref::blake (scalar G, bit-string padding, constants derived from pi and square roots); distinct_nontrivial = distinct expected digests".into();
+    rep.rule = "4 BLAKE variants x {every length 0..=9B+3 (thorough 33B+3) of zeros / counting bytes / 0xff} + every one-hot message of lengths B-9, B-8, B, 2B-9 + lengths 2^k-1,2^k,2^k+1 for k=9..16 (20); digest compared with vref::blake (scalar G, bit-string padding, constants derived from pi and square roots); distinct_nontrivial = distinct expected digests".into();
     run_one::<KBlake224>(&mut rep, "C04", tier);
     run_one::<KBlake256>(&mut rep, "C04", tier);
     run_one::<KBlake384>(&mut rep, "C04", tier);
@@ -176,7 +176,7 @@ pub fn run_c06_digests(rep: &mut Report, tier: &str) {
 }
 pub fn run_c07(tier: &str, config: &str) -> Report {
     let mut rep = Report::new("C07", tier, config);
-    rep.rule = "4 Groestl variants x {every length 0..=4B+9 (thorough 8B+9) of three patterns} + every one-hot message of lengths B-9, B-8, B + lengths around 255 blocks (block counter crosses one byte; thorough also 65535 blocks); compared with vref::groestl (byte matrix, generated S-box); distinct_nontrivial = distinct expected digests".into();
+    rep.rule = "4 Groestl variants x {every length 0..=8B+9 (thorough 17B+9) of three patterns} + every one-hot message of lengths B-9, B-8, B + lengths around 255 blocks (block counter crosses one byte; thorough also 65535 blocks); compared with vref::groestl (byte matrix, generated S-box); distinct_nontrivial = distinct expected digests".into();
     run_one::<KGroestl224>(&mut rep, "C07", tier);
     run_one::<KGroestl256>(&mut rep, "C07", tier);
     run_one::<KGroestl384>(&mut rep, "C07", tier);
